@@ -489,3 +489,97 @@ def commit_group(ctx, name, floor=1):
             ctx.ob("commit|%s|%s|%s" % (name, b.name, K_last(e.callee)), p is None, msg, [e])
     if n < floor:
         ctx.missing("commit group %s: %d effect sites (expected >= %d)" % (name, n, floor))
+    decision_census(ctx, name)
+
+
+# ------------------------------------------------------------------ decision-input census
+# The branch-commit rule cannot see an exit that is itself a *new* decision placed in front of an effect (`if c { return }` becomes
+# the closest dominating branch). The census closes that: for every effect site of the commit groups, the set of inputs that the
+# conditions dominating it test (callees whose result is tested, argument / captured-field paths) was recorded from the unchanged
+# tree (decision_inputs.json, generated by tools/gen_decision_inputs.py and read through once); an effect that today is guarded by
+# an input outside the recorded set has become conditional on something new, i.e. in some state it is now skipped.
+# Restyling a test on the same inputs (is_empty vs len, if-let vs match, negation) does not change the set.
+import json as _json
+import os as _os
+
+_DI_PATH = _os.path.join(_os.path.dirname(_os.path.abspath(__file__)), "decision_inputs.json")
+_DI = None
+
+
+def _roots_of_origins(os_):
+    from ..core import origin_calls
+    out = set()
+    for o in os_:
+        rt, names = origin_proj_names(o)
+        for c in origin_calls(o):
+            out.add("call:" + c[2])
+        fields = [n[1] for n in names if n[0] == "f" and not n[1].isdigit()]
+        if rt[0] == "arg":
+            out.add("arg%d%s" % (rt[1], ("." + ".".join(fields)) if fields else ""))
+        elif rt[0] == "env":
+            out.add("env" + (("." + ".".join(fields)) if fields else ""))
+        elif rt[0] == "static":
+            out.add("static:" + str(rt[1]))
+    return out
+
+
+def cond_inputs(c):
+    out = set()
+    if c.kind == "call":
+        out.add("call:" + (c.data[0] or "?"))
+        try:
+            s = c.data[2]
+            if s.args():
+                out |= _roots_of_origins(s.body.origins(s.args()[0], s))
+        except Exception:
+            pass
+    elif c.kind == "cmp":
+        out |= _roots_of_origins(c.data[1]) | _roots_of_origins(c.data[2])
+    elif c.kind in ("variant", "bool", "int"):
+        out |= _roots_of_origins(c.data[0])
+    else:
+        out.add("unknown")
+    return out
+
+
+def decision_inputs_today(P, group):
+    bodies_rx, effect_rx, _ = COMMIT_GROUPS[group]
+    rx = re.compile(bodies_rx)
+    res = {}
+    sites = {}
+    for b in P.all_bodies():
+        if not rx.search(b.name) or "::tests" in b.name:
+            continue
+        for e in b.calls(effect_rx):
+            k = "%s|%s" % (b.name, K_last(e.callee))
+            ins = res.setdefault(k, set())
+            sites.setdefault(k, []).append(e)
+            for c in b.conditions(e):
+                ins |= cond_inputs(c)
+    return res, sites
+
+
+def decision_census(ctx, group):
+    global _DI
+    if _DI is None:
+        try:
+            _DI = _json.load(open(_DI_PATH))
+        except Exception:
+            _DI = {}
+    base = _DI.get(group)
+    if base is None:
+        ctx.missing("decision-input baseline for group " + group)
+        return
+    today, sites = decision_inputs_today(ctx.prog, group)
+    n = 0
+    for k, ins in sorted(today.items()):
+        if k not in base:
+            continue  # a function / effect that did not exist when the baseline was taken: nothing to compare with
+        n += 1
+        new = sorted(ins - set(base[k]))
+        ctx.ob("decision-inputs|%s|%s" % (group, k), not new,
+               "the decision to perform `%s` depends only on the inputs it depended on (%s)%s" % (
+                   k.split("|")[1], ", ".join(base[k]) or "none: unconditional",
+                   "; NEW input(s): " + ", ".join(new) if new else ""), sites[k][:3])
+    if n < max(1, len(base) // 2):
+        ctx.missing("decision-input census %s: only %d of %d recorded effect sites found" % (group, n, len(base)))
